@@ -1418,10 +1418,10 @@ func (self *LockDB) GetOrNewLockManager(command *protocol.LockCommand) *LockMana
 
 		lockManager.lockKey = command.LockKey
 		lockManager.fastKeyValue = fastValue
+		atomic.AddUint32(&lockManager.refCount, 1)
 		fastValue.manager = lockManager
 		atomic.AddUint32(&fastValue.count, 1)
 		atomic.StoreUint32(&fastValue.lock, 2)
-		atomic.AddUint32(&lockManager.refCount, 1)
 		atomic.AddUint32(&lockManager.state.KeyCount, 1)
 		return lockManager
 	}
@@ -1464,10 +1464,10 @@ func (self *LockDB) GetOrNewLockManager(command *protocol.LockCommand) *LockMana
 
 		lockManager.lockKey = command.LockKey
 		lockManager.fastKeyValue = fastValue
+		atomic.AddUint32(&lockManager.refCount, 1)
 		fastValue.manager = lockManager
 		atomic.AddUint32(&fastValue.count, 1)
 		atomic.StoreUint32(&fastValue.lock, 2)
-		atomic.AddUint32(&lockManager.refCount, 1)
 		atomic.AddUint32(&lockManager.state.KeyCount, 1)
 		return lockManager
 	}
@@ -1483,8 +1483,8 @@ func (self *LockDB) GetOrNewLockManager(command *protocol.LockCommand) *LockMana
 	lockManager.lockKey = command.LockKey
 	lockManager.fastKeyValue = fastValue
 	atomic.AddUint32(&fastValue.count, 1)
-	self.mGlock.Unlock()
 	atomic.AddUint32(&lockManager.refCount, 1)
+	self.mGlock.Unlock()
 	atomic.AddUint32(&lockManager.state.KeyCount, 1)
 	atomic.AddUint64(&lockManager.state.SlowKeyCount, 1)
 	return lockManager
